@@ -9,6 +9,7 @@ mod r1cs;
 mod replay;
 mod oracle;
 mod scen_c03;
+mod scen_c06;
 mod scen_c07;
 mod scen_c10;
 mod scen_c15;
@@ -145,6 +146,24 @@ fn tasks_for(prop: &str, tier: &str, seed: u64) -> Vec<Task> {
                         on_curve!(c.as_str(), f, k as u64, ntrees, seed, &c)
                     }),
                 });
+            }
+            out
+        }
+        "C06" => {
+            let mut out = vec![];
+            for (k, shape) in shapes::c06_shapes(thorough, seed).into_iter().enumerate() {
+                let cs: Vec<&str> = if thorough { curves.clone() } else { vec![["secq256k1", "zorro", "curve25519"][k % 3]] };
+                for c in cs {
+                    let (shape, c) = (shape.clone(), c.to_string());
+                    out.push(Task {
+                        name: format!("C06:{}:{}", shape.name, c),
+                        replay: serde_json::json!({"kind": "c06", "shape": scen_r1cs::shape_json(&shape), "seed": seed}),
+                        run: Box::new(move || {
+                            use scen_c06::job_c06 as f;
+                            on_curve!(c.as_str(), f, &shape, seed, &c)
+                        }),
+                    });
+                }
             }
             out
         }
@@ -297,7 +316,7 @@ fn main() {
                     println!("REPLAY {}", if any_wrong { "REPRODUCED" } else { "NOT-REPRODUCED" });
                     std::process::exit(if any_wrong { 1 } else { 0 });
                 }
-                Some(kind @ ("c10" | "c13" | "c15" | "c07")) => {
+                Some(kind @ ("c10" | "c13" | "c15" | "c07" | "c06")) => {
                     let seed = rp["seed"].as_u64().unwrap_or(0);
                     let mut any_wrong = false;
                     for (k, m) in [(0u64, model.clone()), (1, HashMap::new()), (2, HashMap::new())] {
@@ -307,6 +326,10 @@ fn main() {
                                 replay::c10_native::<Secq>(&case, seed + k, m)
                             }
                             "c13" => replay::c13_native::<Secq>(rp["variant"].as_str().unwrap(), seed + k, m),
+                            "c06" => {
+                                let shape: r1cs::Shape = serde_json::from_value(rp["shape"].clone()).unwrap();
+                                replay::c06_native::<Secq>(&shape, seed + k)
+                            }
                             "c07" => {
                                 let case: scen_c07::BatchCase = serde_json::from_value(rp["case"].clone()).unwrap();
                                 replay::c07_native::<Secq>(&case, seed + k, m)
